@@ -134,7 +134,10 @@ fn cg(toks: &[&str], out: &mut Vec<String>) -> R<()> {
 
 // ---------------------------------------------------------------- se gfh
 
-/// `History<f32, u8>`: nothing before `lo`, afterwards the time itself (`t.0 as f32`) stamped `t`.
+/// `History<f32, u8>`: nothing before `lo`, afterwards the queried time itself as the value (`t.0 as f32`).
+/// The datum it returns is deliberately stamped with a DIFFERENT time (the query time rounded down to a multiple of 16,
+/// minus 5, like a sampled log returning its nearest earlier sample): `GetterFromHistory` must restamp with the clock
+/// reading, not derive the stamp from the history's datum.
 struct Hist {
     lo: Time,
 }
@@ -143,7 +146,7 @@ impl History<f32, E> for Hist {
         if time < self.lo {
             None
         } else {
-            Some(Datum::new(time, time.0 as f32))
+            Some(Datum::new(Time(time.0.div_euclid(16).wrapping_mul(16).wrapping_sub(5)), time.0 as f32))
         }
     }
 }
